@@ -271,7 +271,10 @@ func c07Maps(c *c07Ctx) {
 	nf, _ := ast.Name("/f")
 	ng, _ := ast.Name("/g")
 	one := ast.Number(1)
-	keys := []ast.Constant{ast.Number(1), ast.Number(2), ast.String("a"), na, ast.List([]ast.Constant{one}), ast.Number(65792), ast.Pair(&one, &one)}
+	zero := ast.Number(0)
+	keys := []ast.Constant{ast.Number(1), ast.Number(2), ast.String("a"), na, ast.List([]ast.Constant{one}), ast.Number(65792), ast.Pair(&one, &one),
+		// compound keys of the same shape with equal hashes
+		ast.ListNil, ast.List([]ast.Constant{zero}), ast.List([]ast.Constant{zero, zero})}
 	vals := []ast.Constant{ast.Number(7), ast.String("v"), na}
 	X := ast.Variable{Symbol: "X"}
 	check := func(kind string, ks, vs []ast.Constant, probe []ast.Constant) {
@@ -281,6 +284,7 @@ func c07Maps(c *c07Ctx) {
 		}
 		perms := permutations(len(ks))
 		var first string
+		var firstM ast.Constant
 		for pi, p := range perms {
 			var args []ast.Constant
 			for _, i := range p {
@@ -293,9 +297,18 @@ func c07Maps(c *c07Ctx) {
 				return
 			}
 			if pi == 0 {
-				first = oracle.Key(m)
+				first, firstM = oracle.Key(m), m
 			} else if oracle.Key(m) != first {
 				c.fail(ctor+" built from the same pairs in a different order is a different value", args)
+			}
+			// the same value must also be Equal (and print alike) however often and in whatever order it is built;
+			// the constructor goes through a Go map, so equal-hash keys are presented in a different order each time
+			for rep := 0; rep < 6 && len(ks) > 1; rep++ {
+				m2, err := fnApply(ctor, args...)
+				if err != nil || !m2.Equals(firstM) || !firstM.Equals(m2) || m2.String() != firstM.String() || m2.Hash() != firstM.Hash() {
+					c.fail(fmt.Sprintf("%s built again from the same pairs is not Equal to the first construction: %v vs %v", ctor, m2, firstM), args)
+					break
+				}
 			}
 			for i, k := range ks {
 				g, err := fnApply(get, m, k)
